@@ -217,6 +217,20 @@ func isCreatedAtOrAfter(cert *agglayertypes.CertificateHeader, createdAt uint32)
 	return err == nil && meta.Version >= types.CertificateMetadataV1 && meta.CreatedAt >= createdAt
 }
 
+// withPreviousLER returns the agglayer certificate with its previous LER set. The field is optional
+// in the agglayer header: when it is missing, it is the new LER of the settled certificate of the previous
+// height (the local storage, that is used to find it later on, may not have that certificate)
+func (i *initialStatus) withPreviousLER(cert *agglayertypes.CertificateHeader) *agglayertypes.CertificateHeader {
+	if cert == nil || cert.PreviousLocalExitRoot != nil || i.SettledCert == nil ||
+		i.SettledCert.Height+1 != cert.Height {
+		return cert
+	}
+	res := *cert
+	previousLER := i.SettledCert.NewLocalExitRoot
+	res.PreviousLocalExitRoot = &previousLER
+	return &res
+}
+
 func (i *initialStatus) getLatestAggLayerCert() *agglayertypes.CertificateHeader {
 	if i.PendingCert == nil {
 		return i.SettledCert
